@@ -74,6 +74,7 @@ def classes(sig, ir):
     sig["n_params"] = len(ps)
     # features that make a whole hop raise (exact lists of classes would differ for every tuple of parameters)
     sig["has_dict_param"] = any(p.get("typ") == "dict" for p in ps)
+    sig.update(A.str_default_features(ir))
     sig["dotted_code_default"] = any(A.tclass(p.get("typ")) == "dotted" and A.vkind(p.get("default", O.ABSENT)) == "code" for p in ps)
     r = ir.get("returns")
     sig["ret"] = "none" if not r else ("default" if "default" in r["return_type"] else "plain")
@@ -107,6 +108,8 @@ def run(case):
         outcomes.add(outcome)
         for v in vs:
             v["sig"]["doc_kind"] = "some_nodoc" if has_nodoc else "all_doc"
+            for fk, fv in A.str_default_features(ir).items():
+                v["sig"].setdefault(fk, fv)
             v["case"] = dict(key=case.get("key"), ir=case["ir"], cfg=cfg)
         viol.extend(vs)
     return dict(outcome="+".join(sorted(outcomes)), transitions=2 * n, evaluations=n, violations=viol)
